@@ -7,7 +7,8 @@
 //                     definition's intermediate-solution callback, print fired flag after each
 //   W n               iteration condition with n, evaluated 2^32+2 times directly: prints results at 2^32-1, 2^32, 2^32+1 (n+1.. style)
 //   TIMED d           timed condition of d seconds: prints eval now, and after d+0.05 s, and again
-//   PERIODIC p        periodic condition with period p on predicate 0: safe-direction checks with sleeps
+//   TIMED2 d i        timed condition of d seconds with check interval i (0 and i > d included)
+//   PERIODIC p        periodic condition with period p on predicate 0 (p = 0: evaluated directly): safe-direction checks with sleeps
 //   EXACT             exactSolnPlannerTerminationCondition mirrors pdef->hasExactSolution()
 #include <ompl/base/PlannerTerminationCondition.h>
 #include <ompl/base/terminationconditions/IterationTerminationCondition.h>
@@ -17,6 +18,7 @@
 #include <ompl/base/SpaceInformation.h>
 #include <ompl/geometric/PathGeometric.h>
 #include <ompl/util/Console.h>
+#include <algorithm>
 #include <chrono>
 #include <cstring>
 #include <iostream>
@@ -81,6 +83,12 @@ int main()
             bool a = c.eval(); msleep(d + 0.05); bool b = c.eval(); msleep(0.02); bool c3 = c.eval();
             auto c2 = ob::timedPlannerTerminationCondition(d, d / 4); bool a2 = c2.eval(); msleep(d + d / 2 + 0.1); bool b2 = c2.eval();
             std::printf("timed %d %d %d %d %d\n", a, b, c3, a2, b2);
+        }
+        else if (op == "TIMED2")
+        {   // timed condition with a check interval (0 = none needed, > duration = clamped to it): false at once (unless the duration is 0), true after duration + interval + slack, still true later
+            double d, iv; in >> d >> iv; auto c = ob::timedPlannerTerminationCondition(d, iv);
+            bool a = c.eval(); msleep(d + std::min(iv, d) + 0.08); bool b = c.eval(); msleep(0.02); bool c3 = c.eval();
+            std::printf("timed2 %d %d %d\n", (d > 0.02) ? a : 0, b, c3);
         }
         else if (op == "PERIODIC")
         {
